@@ -4,6 +4,7 @@ TRUSTED_BASE = [
     "Lean 4.33.0 kernel (thorough tier: leanchecker re-check of the property module)",
     "axioms per theorem as listed under coverage.theorems (subset of propext, Classical.choice, Quot.sound)",
     "tools/rs2lean.py (constants + bit functions regenerated from /repo/src on every run)",
+    "tools/skeleton.py (call-order skeletons of the pipeline / open / drop / worker functions regenerated on every run)",
     "correspondence harness /verif/harness (generators, canonicalisation, independent oracles)",
 ]
 
@@ -21,7 +22,8 @@ HOOK_COMMITS = ["39fa7aa verif hook: expose both index page searches (cfg pdb_ve
                 "bafdd9c verif hook: expose last enacted record id and table configuration (cfg pdb_verif)",
                 "8676b67 verif hook: read-only value table state / entry access, compress, hash_key (cfg pdb_verif)",
                 "b67f689 verif hook: index walk, raw index entries, hash_key, recover_key_prefix (cfg pdb_verif)",
-                "9f268a7 verif hook: named yield points at the reindex lookup and pipeline hand-over sites (cfg pdb_verif)"]
+                "9f268a7 verif hook: named yield points at the reindex lookup and pipeline hand-over sites (cfg pdb_verif)",
+                "fd82e88 verif hook: read-only btree dump and separator codec (cfg pdb_verif)"]
 NOT_APPLICABLE = {}
 
 PROPS = {
@@ -368,5 +370,93 @@ PROPS = {
                  "yield hook; non-trivial = shared nodes > 0 / scenario reached"),
         "assumptions": ["clients reference existing nodes only while holding the read lock of a tree that reaches them"],
         "trusted": ["hook lib.rs verif::{set_yield_hook, yield_point} (cfg pdb_verif)"],
+    },
+    "C04": {
+        "level_text": ("Lean theorems C04_iter_spec / C04_next_spec / C04_prev_spec / C04_seek_spec / C04_position: for every sequence of "
+                       "iterator calls (seek, seek_to_first, seek_to_last, next, prev with direction changes), with the commit overlay and the "
+                       "backend changing arbitrarily between calls (commits, stage moves), every answer of the iterator merge machine "
+                       "(iter_inner, pending backend item, re-seek on record-id change, btree_next / btree_prev) is the answer the property "
+                       "demands on the merged map at the time of the call (seek k: min >= k / max <= k; after K: min > K / max < K; Start: "
+                       "first / nothing; End: last / nothing); C04_get_spec: point reads are lookups in the same map. "
+                       "C04_separator_roundtrip: key-length encoding incl. the 254/255 escape for all lengths < 2^32. C04_sort_stable / "
+                       "C04_prepare_spec: stable sort by key + last operation per key equals the transaction's effect. C04_change_refines / "
+                       "C04_tree_inv: every transaction applied by the model's write_plan (insert, replace, remove with split / both rotations "
+                       "/ merge / root growth and removal, every depth) to a tree satisfying TreeInv never reaches a corrupt-tree state, "
+                       "enumerates specApply of the old enumeration, and TreeInv (in-order keys strictly increasing, every leaf at the recorded "
+                       "depth, children = separators + 1, occupancy <= ORDER and >= ORDER/2 for non-root nodes) holds again. The iterator model "
+                       "is of the patched code (fix-c04-seek-to-last, fix-c04-start-end); C04_F5a_counterexample / C04_F5b_counterexample are "
+                       "the negation witnesses of the unpatched code."),
+        "level_note": ("Trusted: Lean kernel; the abstraction of the backend cursor (BTreeIterState node stack) as a position in the sorted "
+                       "backend list and 'equal record id => equal backend' are tied by correspondence only (model driven by the same commits / "
+                       "stage steps / iterator calls as the real Db, also the unpatched model against the unpatched crate: 0 disagreements); "
+                       "tree update: one change per descent in the model vs the batching loop of Node::change, values instead of value-table "
+                       "addresses (tied by equality of tree shapes with the dumped real tree after every processed commit); value storage "
+                       "below the tree is C06."),
+        "lean": ["Pdb.Props.C04"],
+        "harness": [{"cmd": "c04", "quick": 150, "thorough": 1500, "max_search": 3000}],
+        "rule": ("one SplitMix64 state per case: btree column (plain / lz4), pool of 5..400 (thorough ..1200) distinct keys of length 0..300 "
+                 "(emphasis 253..257, prefix chains, shared long stems; thorough: up to two keys > 64 KiB), 50..150 (thorough 80..260) actions: "
+                 "commits of 1..6 or 20..200 changes (random or contiguous sorted runs, repeated keys inside one transaction, grow / churn / "
+                 "shrink phases; one case in eight starts with an ascending fill of 400 keys -> depth 3), process_commits / flush_logs / "
+                 "enact_logs / clean_logs, point reads, a tree dump after every processed commit, bursts of 1..7 iterator calls on an iterator "
+                 "kept open across commits (new 3%, seek 12% incl. keys outside the pool, seek_to_first 4%, seek_to_last 8%, next / prev "
+                 "with direction changes); full forward and backward scan, reopen, scan again; distinct by SHA-1 of the op list; "
+                 "non-trivial = answers came from two different layers (commit overlay / log overlay / files) or the tree reached depth >= 1"),
+        "assumptions": [A_COMPRESS,
+                        "backend cursor abstraction and record-id/backend coupling of Pdb/Model/BTreeIter.lean (validated by the runs)",
+                        "batching loop of Node::change equals one descent per change (validated by tree-shape equality in the runs)"],
+        "trusted": ["hook btree::verif::{verif_dump, separator_codec} / verif::btree_dump (cfg pdb_verif, read-only)"],
+    },
+    "C15": {
+        "level_text": ("Lean theorems C15_no_lost_wakeup (all configurations), C15_commit_returns / C15_commit_wakeups, "
+                       "C15_no_stuck and C15_shutdown_terminates (+ C15_shutdown_signalled, C15_kill_logs_total) over an "
+                       "interleaving model of N committers, the four workers and the dropping thread (program counters at "
+                       "lock / wait / signal / check granularity, WaitCondvar flag protocol, lost notifications modelled, all "
+                       "transaction sizes, injected worker failures, drop at any moment): in every reachable state in which "
+                       "no thread can move nothing is pending, a throttled committer is woken by the downward crossing or by "
+                       "a stored error, and after shutdown every worker step decreases a measure. Proved for the FIXED "
+                       "configuration (fixes/fix-c15-*.diff); for the unpatched programs three machine-checked schedules "
+                       "(F7 with and without workers, F12, F13) refute the statement and are replayed on the real crate by "
+                       "the harness. The configuration flags and the order obligations are regenerated from src/db.rs."),
+        "level_note": ("Trusted: Lean kernel; tools/skeleton.py (syntactic call-order extraction); the hand-written LTS "
+                       "(granularity: a step under one mutex whose effects are only visible under that mutex is atomic; "
+                       "kill_logs and the stepping API are sequential functions); OS scheduler fairness and parking_lot "
+                       "condvar semantics (A-os). Partial by nature."),
+        "lean": ["Pdb.Props.C15"],
+        "harness": [{"cmd": "c15", "quick": 40, "thorough": 600, "model": False, "timeout": 3000}],
+        "rule": ("real Db with background workers in a child process under a watchdog (60 s of silence between progress "
+                 "lines, observed < 0.6 s; an expiry counts only if it reproduces on an immediate re-run with the same "
+                 "seed); scenarios from one SplitMix64 state: small (2-4 threads x 100-400 tiny / empty / 0-byte commits), "
+                 "sizes (0 B, 1 MiB, 17 MiB, 17x1 MiB, 24 MiB transactions in a row: queue-full throttle), logs / keeplogs "
+                 "(bursts with always_flush, many log files in flight, KEEP_LOGS retained with sync_data=false, drop "
+                 "immediately), logs-nothread (stepping API, > MAX_LOG_FILES enacted files, commit queued, drop), shutdown "
+                 "(drop at a random moment between commit calls of active committers), bgerr / errfull (directory renamed "
+                 "under the running handle: a worker fails; commits must return Ok or Err(Background)); always_flush, "
+                 "sync_wal, sync_data random; oracle: every call returns, drop returns, every Ok-committed key has its last "
+                 "Ok-committed value after reopen (BTreeMap); non-trivial = at least one commit accepted"),
+        "assumptions": ["A-os: weak fairness of the OS scheduler for runnable threads; parking_lot Mutex / Condvar semantics as modelled "
+                        "(notify with no waiter is lost, no reliance on spurious wake-ups)",
+                        "A-rust: a handle is not dropped while a commit call on it is in progress (ownership)"],
+        "trusted": ["tools/skeleton.py (Pdb/Gen/Order.lean)"],
+    },
+    "C18": {
+        "level_text": ("Lean theorems C18_mutex, C18_content_only_under_lock, C18_failed_open_noop, C18_prelock_frame and "
+                       "C18_reopen_after_drop_or_death over an interleaving model of any number of threads / processes running "
+                       "open, drop, failing opens and kill -9 on one directory: at most one thread is between a successful "
+                       "try_lock and its unlock / death, content is only ever touched by the lock holder, a losing open "
+                       "changes nothing (before its try_lock it can at most create the directory and the empty lock file), "
+                       "and whenever the lock is free an open succeeds. Proved for every open / drop program satisfying a "
+                       "decidable order obligation and instantiated with the programs regenerated from src/db.rs."),
+        "level_note": ("Trusted: Lean kernel; tools/skeleton.py; flock(2) semantics as used by fs2 (A-os): one holder per lock "
+                       "file, try_lock fails iff held, released by unlock / close / process death. Partial by nature."),
+        "lean": ["Pdb.Props.C18"],
+        "harness": [{"cmd": "c18", "quick": 150, "thorough": 3000, "model": False}],
+        "rule": ("scenarios from one SplitMix64 state: threads (2-5 in-process threads x 8-60 open/commit/drop rounds, live-handle "
+                 "counter), mixed (plus child processes), procs / kill (a holder child process, concurrent losing opens from "
+                 "children and in-process, directory names + content hashes except `lock` compared before / after, then drop "
+                 "or kill -9 and reopen), recovery-race (2-5 processes open one crash image with pending log files at once: "
+                 "exactly one Ok, its recovered content digest = committed content); non-trivial = both Ok and Locked seen"),
+        "assumptions": ["A-os: advisory flock semantics of the OS (per open file description; released on close / process death)"],
+        "trusted": ["tools/skeleton.py (Pdb/Gen/Order.lean)"],
     },
 }
